@@ -694,6 +694,11 @@ int main(int argc, char *argv[]) {
     VERIF_EVENT("{\"e\":\"WriterDone\",\"ch\":\"oc\",\"fail\":" << (output_code.fail() ? 1 : 0) << "}");
   }
 
+  // The databases are read lazily, by the first query.  Make sure they have
+  // been read even if no table was written, so that a missing or unreadable
+  // file is always reported.
+  interrogate_number_of_functions();
+
   if (interrogate_error_flag()) {
     nout << "Error reading interrogate data.\n";
     output_code_filename.unlink();
